@@ -358,10 +358,12 @@ def applied_shard(kind, sign, T, delayed=False):
     return tally
 
 
-def reuse_shard(kind, sign, mode, delay_cfg, keepshape):
+def reuse_shard(kind, sign, mode, delay_cfg, keepshape, between="clear"):
     """Part D: one cell re-used across histories. Every ordered pair (A, B) of histories of length 2 rides the batch: A is run,
     then layer.clear(), trainer.clear(keepshape=...), updater.clear(), then B - the parts accumulated during B must equal the pair
     sums of B alone (nothing of A may survive in traces, event times or the synapse's delay history)."""
+    # between = "eval-burnin": instead of clearing, the trainer is put in eval mode BEFORE the cell is registered, history A only
+    # drives the layer (no recording may happen), then trainer.train() and history B is trained on: again B alone counts
     tally = Tally()
     spec = Cellspec("dense", 1, 1)
     dt, T, gamma = 1.0, 2, 0.5
@@ -376,27 +378,34 @@ def reuse_shard(kind, sign, mode, delay_cfg, keepshape):
         variants = [(dmode, 2 * dt, torch.full(spec.wshape, k * dt))]
     for dmode, maxdelay, delays in variants:
         case = {"trainer": kind, "sign": sign, "trace_mode": mode, "delayed_mode": dmode, "delays": None if delays is None else delays.tolist(),
-                "keepshape": keepshape, "part": "cell re-used after clear", "batch=pairs": B}
+                "keepshape": keepshape, "part": "cell re-used after clear" if between == "clear" else "registered in eval mode, burn-in, then train()", "batch=pairs": B}
         tally.add("evaluations")
         if kind == "mstdpet" and dmode == "delayed":
             continue
         try:
             layer = spec.build(dt, B, maxdelay, delays)
             trainer = make_trainer(kind, sign, mode, dmode == "delayed", identity_reduction)
+            if between == "eval-burnin":
+                trainer.eval()
             trainer.register_cell("cell", layer.cell)
             for phase in (0, 1):
                 for t in range(T):
                     pre = [[p[phase][t][0]] for p in pairs]
                     pst = [[p[phase][t][1]] for p in pairs]
                     step_layer(layer, spec.pre_tensor(pre), spec.post_tensor(pst))
+                    if between == "eval-burnin" and phase == 0:
+                        continue
                     if three:
                         trainer(float(signal_for(t, 1, "stepalt")[0]), gamma)
                     else:
                         trainer()
                 if phase == 0:
-                    layer.clear()
-                    trainer.clear(keepshape=keepshape)
-                    layer.connection.updater.clear()
+                    if between == "eval-burnin":
+                        trainer.train()
+                    else:
+                        layer.clear()
+                        trainer.clear(keepshape=keepshape)
+                        layer.connection.updater.clear()
         except Exception as ex:
             tally.violation(f"exception:reuse:{kind}:{dmode}:{type(ex).__name__}", case, f"{type(ex).__name__}: {ex}", None, repr(ex))
             continue
@@ -412,10 +421,10 @@ def reuse_shard(kind, sign, mode, delay_cfg, keepshape):
         bi = (diff > 1e-5).nonzero().reshape(-1)
         if len(bi):
             b = int(bi[0])
-            tally.violation(f"reuse-after-clear:{kind}:{mode}:{dmode}:keepshape={keepshape}", {**case, "history_before_clear": pairs[b][0], "history_after_clear": pairs[b][1]},
+            tally.violation((f"reuse-after-clear:{kind}:{mode}:{dmode}:keepshape={keepshape}" if between == "clear" else f"trained-on-eval-burnin:{kind}:{mode}"), {**case, "history_before_clear": pairs[b][0], "history_after_clear": pairs[b][1]},
                             f"after history {pairs[b][0]} and clear(), history {pairs[b][1]} accumulated {got[b].reshape(-1).tolist()} but alone it gives "
                             f"{exp[b].reshape(-1).tolist()}", exp[b].tolist(), got[b].tolist())
-        tally.mark("nontrivial", ("reuse", kind, sign, mode, dmode, keepshape))
+        tally.mark("nontrivial", ("reuse", kind, sign, mode, dmode, keepshape, between))
     tally.add("histories", B)
     tally.sample({"part": "re-use after clear", "trainer": kind, "pairs_as_batch": B})
     return tally
@@ -513,6 +522,7 @@ def run(rep):
             for dcfg in (None, ("frozen", 1), ("frozen", 2), ("delayed", 1), ("delayed", 2)):
                 for keepshape in (False, True):
                     jobs.append((reuse_shard, (kind, "hebbian", mode, dcfg, keepshape)))
+            jobs.append((reuse_shard, (kind, "hebbian", mode, None, False, "eval-burnin")))
         for redname in ("default", "sum", "mean"):
             # the per-sample signal path routes every (sample, term) by lr sign x signal sign: all four sign modes there
             for sign in (tuple(SIGNS) if (kind in ("mstdp", "mstdpet") and redname != "mean") else ("hebbian", "dep")):
